@@ -99,6 +99,10 @@ var c03PreEnforcement bool
 
 // c03Valid judges block b against node n's ledger BEFORE b is offered. Returns "" or the broken rule.
 func c03Valid(n *simnet.Node, b *nom.AccountBlock) string {
+	// (first, because a negative number has no agreed place in the hash pre-image: the node hashes its absolute value)
+	if b.Amount != nil && b.Amount.Sign() < 0 {
+		return "negative-amount"
+	}
 	if !bytes.Equal(c03BlockHash(b), b.Hash.Bytes()) {
 		return "hash-does-not-match-content"
 	}
@@ -323,6 +327,18 @@ func c03Mutations() []c03Mut {
 		{"Amount=2^255-1", func(b *nom.AccountBlock, e *c03Env) bool { b.Amount = new(big.Int).Sub(c03P255, big.NewInt(1)); return true }},
 		{"Amount=2^256+1", func(b *nom.AccountBlock, e *c03Env) bool { b.Amount = new(big.Int).Add(new(big.Int).Lsh(big.NewInt(1), 256), big.NewInt(1)); return true }},
 		{"Amount=-1", func(b *nom.AccountBlock, e *c03Env) bool { b.Amount = big.NewInt(-1); return true }},
+		{"Amount=-1+TokenStandard=zero", func(b *nom.AccountBlock, e *c03Env) bool {
+			b.Amount, b.TokenStandard = big.NewInt(-1-e.r.Int63n(1<<40)), types.ZeroTokenStandard
+			return true
+		}},
+		{"Amount=-(2^255-1)+TokenStandard=zero", func(b *nom.AccountBlock, e *c03Env) bool {
+			b.Amount, b.TokenStandard = new(big.Int).Neg(new(big.Int).Sub(c03P255, big.NewInt(1))), types.ZeroTokenStandard
+			return true
+		}},
+		{"Amount=2^255+TokenStandard=zero", func(b *nom.AccountBlock, e *c03Env) bool {
+			b.Amount, b.TokenStandard = new(big.Int).Set(c03P255), types.ZeroTokenStandard
+			return true
+		}},
 		{"TokenStandard=zero", func(b *nom.AccountBlock, e *c03Env) bool { b.TokenStandard = types.ZeroTokenStandard; return true }},
 		{"TokenStandard=other", func(b *nom.AccountBlock, e *c03Env) bool {
 			if b.TokenStandard == types.QsrTokenStandard {
@@ -629,6 +645,8 @@ func c03BaseBlocks(c *fw.C, P *simnet.Node, w *simnet.Workload, r *rand.Rand) []
 		}
 	}
 	gen("user-send-plain", &nom.AccountBlock{BlockType: nom.BlockTypeUserSend, Address: u.Address, ToAddress: g.User2.Address, TokenStandard: types.ZnnTokenStandard, Amount: big.NewInt(int64(1 + r.Intn(1000))), Data: []byte{1, 2, 3}}, u)
+	// a send that names no token at all (amount 0, data only)
+	gen("user-send-tokenless", &nom.AccountBlock{BlockType: nom.BlockTypeUserSend, Address: g.User4.Address, ToAddress: g.User5.Address, Amount: big.NewInt(0), Data: []byte("note")}, g.User4)
 	gen("user-send-to-contract", &nom.AccountBlock{BlockType: nom.BlockTypeUserSend, Address: g.User2.Address, ToAddress: types.PlasmaContract, TokenStandard: types.QsrTokenStandard, Amount: big.NewInt(20 * g.Zexp),
 		Data: c03FuseData(g.User3.Address)}, g.User2)
 	// pre-enforcement regime: User3 first receives a send addressed to somebody else (legitimate there, once)
